@@ -989,6 +989,15 @@ def decide_bool(t):
         if all(p.split("(")[0].split("{")[0].split("::")[0] == name.split("::")[0] for p in t[2]):
             return False
         return None
+    if t[0] == "matches" and isinstance(t[1], tuple) and t[1] and t[1][0] == "list" and t[1][1] and all(isinstance(x, tuple) and x[:1] == ("ctor",) and not x[2] for x in t[1][1]):
+        # `matches!((a, b), (P, Q | R) | ..)` on a pair of literal constants: decided by the pattern trees
+        from .leaves import pat_tests, parse_pat
+        rs = [pat_tests(t[1], parse_pat(p)) for p in t[2]]
+        if any(r == [] for r in rs):
+            return True
+        if all(r is False for r in rs):
+            return False
+        return None
     if t[0] == "op" and t[1] == "Not":
         v = decide_bool(t[2])
         return None if v is None else (not v)
